@@ -28,6 +28,14 @@ def seed_of(task):
 # --------------------------------------------------------------------------
 # Stage A
 # --------------------------------------------------------------------------
+def bulk_presentations(m, tier):
+    """more jobs than fit one chunk of any plausible internal batching:
+    one job occurs once, at the start / just past 1000 / at the end"""
+    sizes = (1201,) if tier == "quick" else (1201, 2003, 501)
+    return [{"bulk": [n, rare, pos]} for n in sizes for rare in range(m)
+            for pos in sorted({0, 500, 1000, n - 1} & set(range(n)))]
+
+
 def stage_a_presentations(m, tier):
     full = m <= (5 if tier == "quick" else 6)
     idx = list(range(m))
@@ -73,14 +81,15 @@ def flat_cluster(pv_jobs, how):
     return list(cluster_events_by_job_id(flat).values())
 
 
-def stage_a(defn, tier):
+def stage_a(defn, tier, bulk=False):
     st = semantics.Stats()
     jobs = semantics.executions(defn, 2, st)
     ref = semantics.model_of_jobs(pvcommon.with_dummy_start(jobs))
     problems = []
     n = 0
     orders = set()
-    for spec in stage_a_presentations(len(jobs), tier):
+    for spec in (bulk_presentations(len(jobs), tier) if bulk else
+                 stage_a_presentations(len(jobs), tier)):
         n += 1
         pv = present.present(jobs, {k: v for k, v in spec.items()
                                     if k != "flat"})
@@ -219,7 +228,8 @@ def handle(task):
         out = []
         for nm, d in task["defs"]:
             problems, n, m, norders, st = stage_a(dsl.to_tuple(d),
-                                                  task["tier"])
+                                                  task["tier"],
+                                                  task.get("bulk", False))
             out.append({"name": nm, "defn": d, "problems": problems, "n": n,
                         "jobs": m, "dict_orders": norders,
                         "states": st.states, "transitions": st.transitions})
@@ -239,11 +249,21 @@ def build(tier, ctx):
             fragment.branch_count_family(full=(tier == "thorough"))]
     rep += [("FD", d) for d in fragment.kill_in_loop_family()]
     rep += [("FS", d) for d in fragment.staged_merge_family()]
+    # long sequences: many more created objects between fork and merge
+    rep += [("FX", d) for d in fragment.stretched_family(
+        3 if tier == "quick" else 4, 10)]
     defsA += rep
     for i in range(0, len(defsA), 4):
         tasks.append({"kind": "A", "tier": tier,
                       "defs": [(nm, dsl.to_list(d))
                                for nm, d in defsA[i:i + 4]]})
+    # bulk streams (> 1000 jobs) for the smallest definitions
+    for nm, d in pvcommon.scope_defs(ctx["repo"],
+                                     3 if tier == "quick" else 4,
+                                     with_corpus=False):
+        if dsl.constructs(d):
+            tasks.append({"kind": "A", "tier": tier, "bulk": True,
+                          "defs": [(nm, dsl.to_list(d))]})
     if tier == "quick":
         nB, nsmall, seeds = 4, 4, range(4)
     else:
@@ -265,13 +285,15 @@ def build(tier, ctx):
 
 def collect(tier, tasks, results, ctx):
     viol = []
-    evalsA = evalsB = 0
+    evalsA = evalsB = bulk = 0
     states = trans = traces = 0
     dict_orders = 0
     by_def = {}
     for t, r in zip(tasks, results):
         if r["kind"] == "A":
             for o in r["out"]:
+                if t.get("bulk"):
+                    bulk += o["n"]
                 evalsA += o["n"]
                 states += o["states"]
                 trans += o["transitions"]
@@ -354,15 +376,21 @@ def collect(tier, tasks, results, ctx):
         "samples": samples or [{"note": "no definition with > 20 schedules"}],
         "exhaustive": True,
         "bounds": {"tier": tier,
-                   "stage_A": "F_5 + corpus" if tier == "quick"
-                   else "F_6 + corpus",
-                   "stage_B": "F_4 + corpus, seeds 0..3" if tier == "quick"
-                   else "F_6 + corpus, seeds 0..15",
+                   "stage_A": ("F_5" if tier == "quick" else "F_6") +
+                   " + corpus + families (repeated events, branch counts, "
+                   "kill-in-loop, staged merges, stretched); bulk streams "
+                   "of 1201 (thorough also 501, 2003) jobs with one job "
+                   "occurring once at position 0 / 500 / 1000 / last for "
+                   "F_3 (F_4)",
+                   "stage_B": ("F_4" if tier == "quick" else "F_6") +
+                   " + corpus + the same families, seeds " +
+                   ("0..3" if tier == "quick" else "0..15"),
                    "pi": "identity, reversal, every transposition of two "
                          "event ranks (small definitions)",
                    "sigma_all_permutations": "definitions with <= 3 jobs and "
                    "<= 3 (quick) / 4 (thorough) events"},
-        "stage_A_ingestions": evalsA, "stage_B_pipeline_runs": evalsB,
+        "stage_A_ingestions": evalsA,
+        "stage_A_bulk_stream_ingestions": bulk, "stage_B_pipeline_runs": evalsB,
         "stage_B_definitions": len(by_def),
         "definitions_where_a_schedule_changed_an_iteration_order": steered,
         "definitions_where_presentation_changed_dict_order": dict_orders,
